@@ -64,6 +64,7 @@ type ExpEvent struct {
 	Values     [][]ExpCol
 	Identifies [][]ExpCol
 	Marker     string // unique id of the logical change
+	Optional   bool   // a replica may deliver this change or leave it out (see txBody)
 }
 
 // ExpTx is one expected delivery.
@@ -622,6 +623,10 @@ func (b *builder) queryEvent(ts uint32, db, sql string) (*Event, *[3]int32) {
 		Vars: b.statusVars(cs)}
 	if b.s.Chance(1, 20) {
 		q.ErrorCode = uint16(b.s.N(2000))
+		if b.s.Chance(1, 2) {
+			// the codes a master logs for statements that were killed or failed half-way
+			q.ErrorCode = []uint16{1053, 1184, 1317, 1927, 1062, 1205, 1213, 3024}[b.s.N(8)]
+		}
 	}
 	ev := b.add(evQuery, ts, uint16(b.s.N(2))*8, queryBody(q), "QUERY "+sql)
 	return ev, cs
@@ -925,7 +930,19 @@ func (b *builder) txBody(ts uint32) []ExpEvent {
 		if b.o.IgnorableGap > 0 && s.Chance(1, b.o.IgnorableGap*2) {
 			b.ignorable(ts)
 		}
-		switch s.Weighted(16, 2, 2, 1) {
+		switch s.Weighted(16, 2, 2, 1, 1) {
+		case 4:
+			// a statement logged with a leading comment whose first word is a boundary
+			// keyword. Whether a replica classifies the statement behind the comment
+			// (a change of the transaction) or gives up on the comment (an unknown
+			// statement, ignored) is its choice - the change is optional in the model;
+			// what it must never do is take the comment for a commit point.
+			lead := []string{"/* commit marker: order 1841 */ ", "/* rollback plan B */ ", "/*BEGIN*/ ", "/* begin work */ ", "/*commit*/"}[s.N(5)]
+			stmt := []string{"UPDATE t1 SET a=2", "INSERT INTO t1 VALUES (1)", "delete from q"}[s.N(3)]
+			ee := b.queryChange(ts, lead+stmt)
+			ee.StType = stmtTypeOf(stmt)
+			ee.Optional = true
+			exps = append(exps, ee)
 		case 0:
 			exps = append(exps, b.rowsStatement(ts, b.pickTables())...)
 		case 1:
